@@ -136,12 +136,22 @@ def run_index(seed, tier, i, tmpdir):
     sig = oracles.graph_signature(pairs)
     notations = set()
     real_notations = []
+    one_solve_each = True
     for step, obs in zip(run_a["steps"], res_a["observations"]):
         if step.get("unjudged"):
             continue
         if obs.get("discard"):
             out["discards"] += 1
             continue
+        if len(obs.get("solves") or []) > 1:
+            one_solve_each = False  # the code under test splits a conversion into several solves
+        for sv in obs.get("solves") or []:
+            rv, tv = sv.get("real_value"), sv.get("stub_value")
+            if rv is not None and tv is not None:
+                out["fidelity_values_compared"] = out.get("fidelity_values_compared", 0) + 1
+                if tv == "infeasible" or abs(abs(rv) - abs(tv)) > 1e-6:
+                    out["fidelity_mismatch"] += 1
+                    out["fidelity_example"] = {"real_objective": rv, "stub_objective": tv, "model": [sv.get("nvars"), sv.get("nrows")]}
         if knotted and obs["db"]:
             if step["backend"] == "real-cbc":
                 real_notations.append(obs["db"][1])
@@ -175,7 +185,8 @@ def run_index(seed, tier, i, tmpdir):
         if best is None:
             out["unjudged"] = 1
         # stub fidelity: the real CBC's answer must be one of the enumerated optima
-        if not out["violations"] and n_opt and n_opt <= plan["tie_cap"] and not out["truncated"]:
+        # (only meaningful when one conversion is one solve: the enumerated optima are those of one model)
+        if not out["violations"] and n_opt and n_opt <= plan["tie_cap"] and not out["truncated"] and one_solve_each:
             for rn in real_notations:
                 if rn not in notations:
                     out["fidelity_mismatch"] += 1
@@ -266,7 +277,9 @@ def coverage_doc(results, tier):
     fidelity_examples = []
     max_opt = 0
     probe_checked = probe_missing = 0
+    fid_values = 0
     for r in results:
+        fid_values += r.get("fidelity_values_compared", 0)
         probe_checked += max(0, r.get("probe_checked", 0))
         probe_missing += max(0, r.get("probe_missing", 0))
         cov.update(r["coverage"])
@@ -309,6 +322,7 @@ def coverage_doc(results, tier):
         "optima_enumeration_truncated": truncated,
         "discarded_steps": discards,
         "stub_fidelity_mismatches_vs_real_cbc": fidelity,
+        "stub_fidelity_objective_values_compared_with_real_cbc": fid_values,
         "probes": {"optimal_notations_checked_against_all_dot_brackets": probe_checked,
                    "optimal_notations_missing_from_all_dot_brackets": probe_missing,
                    "note": "cross-invariant with C16 (an optimal assignment is greedy-stable, hence listed); a probe, "
